@@ -88,15 +88,19 @@ def build_query(ob, class_axioms, base_facts, rounds=3):
                 s0, x = t.arg(0), t.arg(1)
                 cnt_atoms.setdefault((s0.get_id(), x.get_id()), (s0, x))
                 vs = []
+                origin = ""
                 v = _field_read_arg(s0)
                 if v is not None:
                     vs.append(v)
+                    origin = s0.decl().name()
                 elif z3.is_app(s0) and s0.decl().kind() == z3.Z3_OP_UNINTERPRETED and s0.num_args() > 0:
-                    # a spec function of some references (e.g. NBf(links(v), v, d, u, f)): pair its reference arguments with x
-                    vs.extend(a for a in s0.children() if a.sort().eq(Ref))
+                    # a spec function of some references (e.g. NBf(links(v), v, d, u, f)): pair its first reference argument with x
+                    origin = s0.decl().name()
+                    refs_ = [a for a in s0.children() if a.sort().eq(Ref)]
+                    vs.extend(refs_[:1] if origin.startswith("NBf@") else refs_)
                 for v in vs:
-                    pairs.setdefault((v.get_id(), x.get_id()), (v, x))
-                    pairs.setdefault((x.get_id(), v.get_id()), (x, v))
+                    pairs.setdefault((v.get_id(), x.get_id(), origin), (v, x))
+                    pairs.setdefault((x.get_id(), v.get_id(), origin), (x, v))
             for fname, tups in fields.items():
                 d = ftuples.setdefault(fname, {})
                 for tp in tups:
@@ -133,7 +137,10 @@ def build_query(ob, class_axioms, base_facts, rounds=3):
             elif len(sch.sorts) == 1 and sch.sorts[0].eq(Ref):
                 tuples = [(t,) for t in Ul]
             elif len(sch.sorts) == 2 and all(s_.eq(Ref) for s_ in sch.sorts) and not sch.trigger:
-                tuples = list(pairs.values())
+                if sch.pair_from:
+                    tuples = [pv for (k_, pv) in pairs.items() if k_[2].startswith(sch.pair_from)]
+                else:
+                    tuples = list(pairs.values())
             elif all(s_.eq(Ref) for s_ in sch.sorts):
                 tuples = list(itertools.product(Ul, repeat=len(sch.sorts)))
             else:
